@@ -53,7 +53,9 @@ structure GenSt where
   labels : List Label := []
 
 def labelPool (n : Nat) : List Label :=
-  let alphas := (List.range (n + 2)).map Lb.Label.alpha
+  -- small indices (n + 2 of them, so that a vertex can be filled up) and a few large ones (8 and more digits when
+  -- printed, beyond u8 / u16 / u32, the largest usize)
+  let alphas := (List.range (n + 2)).map Lb.Label.alpha ++ [255, 65536, 10000000, 2 ^ 32 + 1, 2 ^ 64 - 1].map Lb.Label.alpha
   let greeks : List Label := ['x', 'ρ', 'σ', 'π', Char.ofNat 0x1D711, 'é'].map .greek
   let strs : List Label := ["foo", "hello", "αβ", "x y", "abcdefgh"].map (fun s => .str (Lb.pad8 s.toList))
   alphas ++ greeks ++ strs
@@ -63,7 +65,11 @@ def genBytes (rng : Rng) : Rng × List UInt8 :=
   let (rng, len) :=
     if k < 5 then rng.pick [7, 8, 9]
     else if k < 8 then rng.below 5
-    else rng.below 21
+    else if k < 9 then rng.below 21
+    else
+      -- one datum in a hundred is long (lengths around powers of two, beyond u8 and into the kilobytes)
+      let (rng, j) := rng.below 10
+      if j = 0 then rng.pick [31, 32, 33, 63, 64, 65, 127, 128, 255, 256, 257, 1000, 4096] else rng.below 21
   (List.range len).foldl (fun (acc : Rng × List UInt8) _ =>
     let (r, b) := acc.1.below 256
     (r, UInt8.ofNat b :: acc.2)) (rng, [])
@@ -199,7 +205,7 @@ def pickConfig (rng : Rng) : Rng × Nat × Nat :=
   let (rng, n) := rng.pick [1, 2, 3, 4, 4, 6, 8, 16, 16]
   let (rng, k) := rng.below 10
   let (rng, cap) :=
-    if k < 4 then let (r, c) := rng.below 10; (r, c + 2)
+    if k < 4 then let (r, c) := rng.below 11; (r, c + 1)      -- capacity 1 too
     else if k < 8 then let (r, c) := rng.below 24; (r, c + 8)
     else rng.pick [40, 64, 71, 100, 130, 200, 256]   -- also capacities that are not a multiple of 64 / a power of two
   (rng, n, cap)
@@ -494,8 +500,10 @@ def genSlice (rng : Rng) (len : Nat) : Rng × Array String :=
     let (rng, v2) := rng.pick ids
     let (rng, l) := rng.pick (s.labels.take (n + 1) ++ [Lb.Label.greek 'ρ'])
     let (rng, c) := rng.below 8
+    -- data of every kind (inline, heap, long): a slice copies no data, but it walks over slots that hold them
+    let (rng, hx) := genHex rng
     let s := { s with rng := rng }
-    let ops : List Op := if c = 0 then [.put v1 (Hx.Hex.ofBytes [1, 2])] else [.bind v1 v2 l]
+    let ops : List Op := if c = 0 then [.put v1 hx] else [.bind v1 v2 l]
     match s.tryOps ops with | some x => x | none => s) s
   let s := { s with lines := s.lines.push "observe g0" }
   -- slices
@@ -511,7 +519,7 @@ def genSlice (rng : Rng) (len : Nat) : Rng × Array String :=
     -- afterwards the slice is used: data on two of its vertices, then every vertex is read (the reads reveal how
     -- the rebuilt graph was grouped); ids outside the slice make the judge stop judging that handle
     let (rng, w1) := rng.pick (if s.r.ids.isEmpty then [0] else s.r.ids)
-    let cont : Array String := #[s!"put {h'} {v} x0102", s!"put {h'} {w1} x03", s!"data {h'} {v}", s!"keys {h'}", s!"data {h'} {w1}", s!"keys {h'}", s!"snap {h'}"]
+    let cont : Array String := #[s!"put {h'} {v} x0102030405060708090a0b0c", s!"put {h'} {w1} x03", s!"data {h'} {v}", s!"keys {h'}", s!"data {h'} {w1}", s!"keys {h'}", s!"snap {h'}"]
     { s with rng := rng, lines := s.lines ++ #[s!"slice g0 {v} {h'} {showRej rj}", s!"observe {h'}", "observe g0"] ++ cont }) s
   let s := s.drain
   (s.rng, s.lines)
